@@ -981,7 +981,7 @@ func TestVerifC27Fsm(t *testing.T) {
 	sort.Ints(uncovered)
 	r.Note("uncovered", map[string]any{
 		"decoder_table_command_types_without_driven_encoder": uncovered,
-		"not_asserted":                                       "DecodeCommandInspection success (it refuses command kinds it has no redacted view for, by an explicit default branch) — counted per command as inspection.ok / inspection.unsupported; ApplyBatch decode path is the same decodeCommand and is not driven through a state machine here",
+		"not_asserted": "DecodeCommandInspection success (it refuses command kinds it has no redacted view for, by an explicit default branch) — counted per command as inspection.ok / inspection.unsupported; ApplyBatch decode path is the same decodeCommand and is not driven through a state machine here",
 	})
 	r.Note("store_owned_fields_zeroed", "metadb.Channel{SubscriberMutationVersion,SubscriberCount,DirectoryProjectionState,DirectoryProjectionGeneration}, ChannelRuntimeMeta.DirectoryGeneration, PersonDirectoryTask.Generation have no wire tag (maintained by the store) and are generated as zero")
 	r.Note("prefix_policy", "TLV commands: a prefix ending on a top-level TLV boundary is a complete frame with fewer fields (documented forward-compatible format); accepted prefixes of that kind are counted, every other accepted prefix is a violation")
